@@ -58,6 +58,10 @@ pub struct Project {
     pub main_imports: Vec<usize>,
     pub calls: Vec<Call>,
     pub main_files: u8,
+    /// body-only knob of Main (an extra unused local in `main`)
+    pub main_body_knob: i32,
+    /// interface-visible knob of Main (an extra top-level function)
+    pub main_extra_fn: bool,
 }
 
 fn w(x: i64) -> i32 {
@@ -123,6 +127,8 @@ impl Project {
             main_imports,
             calls: Vec::new(),
             main_files: 1 + rng.below(2) as u8,
+            main_body_knob: 0,
+            main_extra_fn: false,
         };
         p.regen_calls(rng);
         p
@@ -324,13 +330,23 @@ impl Project {
         for (k, l) in self.libs.iter().enumerate() {
             let items = self.lib_items(k);
             let nf = (l.n_files as usize).clamp(1, 3).min(items.len().max(1));
-            let fnames = ["lib.gom", "a_part.gom", "z_more.gom"];
+            // file names in the order the compiler reads them (sorted); a trait must be declared
+            // before any impl of it in that order, so trait declarations go first into the first file
+            let fnames: &[&str] = match nf {
+                1 => &["lib.gom"],
+                2 => &["a_part.gom", "lib.gom"],
+                _ => &["a_part.gom", "lib.gom", "z_more.gom"],
+            };
             let mut header = format!("package {}\n", l.name);
             for &j in &l.imports {
                 header.push_str(&format!("import {}\n", self.libs[j].name));
             }
             let mut files: Vec<String> = (0..nf).map(|_| header.clone() + "\n").collect();
-            for (i, it) in items.iter().enumerate() {
+            for it in items.iter().filter(|it| it.starts_with("trait ")) {
+                files[0].push_str(it);
+                files[0].push_str("\n\n");
+            }
+            for (i, it) in items.iter().filter(|it| !it.starts_with("trait ")).enumerate() {
                 files[i % nf].push_str(it);
                 files[i % nf].push_str("\n\n");
             }
@@ -347,7 +363,13 @@ impl Project {
         main.push('\n');
         let split = self.main_files > 1 && self.calls.len() >= 2;
         let (first, second) = if split { self.calls.split_at(self.calls.len() / 2) } else { (&self.calls[..], &self.calls[0..0]) };
+        if self.main_extra_fn {
+            main.push_str("fn main_helper() -> int32 { 1 }\n\n");
+        }
         main.push_str("fn main() {\n");
+        if self.main_body_knob != 0 {
+            main.push_str(&format!("    let knob_local = {};\n", self.main_body_knob));
+        }
         for c in first {
             main.push_str(&format!("    let _ = string_println({});\n", self.render_call(c)));
         }
